@@ -167,6 +167,73 @@ def history_reparent(acc, source, spec, model, payload):
     judge(acc, "history:reparented", spec2, m2, "history:reparented", dict(payload, history="reparented under a new root"))
 
 
+def history_move_ancestor(acc, spec, payload):
+    """One FMFeatureAncestors object: ancestors of a deep feature X, then the subtree rooted at X's parent (or a
+    higher ancestor) is moved to another place in the tree, then X is asked again as the very next query."""
+    from flamapy.metamodels.fm_metamodel.models import Relation
+    from flamapy.metamodels.fm_metamodel.operations import FMFeatureAncestors
+    import copy
+    r = rand.rng("c16-move", S.digest(spec))
+    model = S.build(spec)
+    feats, par = [], {}
+    stack = [model.root]
+    while stack:
+        f = stack.pop()
+        feats.append(f)
+        for rel in f.relations:
+            for c in rel.children:
+                par[id(c)] = f
+                stack.append(c)
+
+    def chain(f):
+        out = []
+        p = par.get(id(f))
+        while p is not None:
+            out.append(p)
+            p = par.get(id(p))
+        return out
+    deep = [f for f in feats if len(chain(f)) >= 2]
+    if not deep:
+        return
+    x = r.choice(deep)
+    anc = chain(x)
+    mover = r.choice(anc[:-1])            # X's parent or a higher ancestor (not the root)
+    sub = set()
+    st = [mover]
+    while st:
+        f = st.pop()
+        sub.add(id(f))
+        for rel in f.relations:
+            st.extend(rel.children)
+    dests = [f for f in feats if id(f) not in sub and f is not par[id(mover)]]
+    if not dests:
+        return
+    dest = r.choice(dests)
+    op = FMFeatureAncestors()
+    op.set_feature(x)
+    try:
+        op.execute(model).get_result()
+        old_parent = par[id(mover)]
+        for rel in list(old_parent.relations):
+            if any(c is mover for c in rel.children):
+                rel.children.remove(mover)
+                if not rel.children:
+                    old_parent.relations.remove(rel)
+        dest.add_relation(Relation(dest, [mover], 0, 1))
+        par[id(mover)] = dest
+        got = [f.name for f in op.execute(model).get_result()]
+    except Exception as e:  # noqa: BLE001
+        acc.fail("history:ancestor-moved", "no-exception", "FMFeatureAncestors", [], f"raises:{type(e).__name__}", str(e)[:200], payload)
+        return
+    want = [f.name for f in chain(x)]
+    if got != want:
+        acc.fail("history:ancestor-moved", "matches-definition", "FMFeatureAncestors", [], "stale-chain",
+                 f"ancestors({x.name}) after moving {mover.name} under {dest.name}: {got[:8]} != {want[:8]}",
+                 dict(payload, history="ancestor subtree moved"))
+    else:
+        acc.held("history:ancestor-moved", None)
+
+
 def under_decimal_contexts(acc, spec, model, payload):
     """The operations are functions of the model: the thread's decimal context (precision, traps) must not
     change a result."""
@@ -217,6 +284,7 @@ def run_case(acc, source, spec, path):
     nfeat = len(S.feature_names(spec))
     if nfeat <= 400 and (path is None or nfeat <= 100) and S.digest(spec)[0] in "0123":
         under_decimal_contexts(acc, spec, model, payload)
+        history_move_ancestor(acc, spec, payload)
         history_reparent(acc, source, spec, model, payload)
 
 
